@@ -71,6 +71,38 @@ THEOREMS = [
      "(forall s, In s (map fst reqs) -> (count_occ N.eq_dec sched s >= 2)%nat) -> "
      "NoDup (map (fun o => fst (fst o)) (" + _RUN + ")) /\\ "
      "forall (s : N) (r0 : request), In (s, r0) reqs -> exists rp, In (s, r0, rp) (" + _RUN + ")"),
+    ("send_never_panics",
+     "forall (checked : bool) (error_page : N -> resp) (pkg : N -> headers -> headers) (p : proto) (secure : bool) "
+     "(alt : option bytes) (m : N) (path_ok : bool) (hdr : option bytes) (r : resp), "
+     "N.of_nat (length (rs_body r)) <= u64_max -> send checked error_page pkg p secure alt m (sd_of path_ok hdr) r <> Panic"),
+    ("history_parity",
+     _LAYER + "(cache_on ims_on : bool) (parse_ims : bytes -> option Z) (sanitize_ok : request -> bool) (prime : request -> request) "
+     "(negotiate : request -> fat -> option (N * bytes)) (vary_tuple : request -> tuple) "
+     "(vary_header : request -> fat -> list (bytes * bytes)) (checked : bool) (error_page : N -> resp) "
+     "(pkg : N -> headers -> headers) (alt : option bytes) (sanitize : request -> outcome (option (N * N))) "
+     "(encode : request -> N -> headers -> bytes -> headers * bytes) (hversion : N) (wants : state hstate -> request -> option N), "
+     "pkg_oblivious pkg -> forall (secure1 : bool) (st : state hstate) (now dt : N) (bs : list breq), "
+     "Forall (fun b => pr_no_request_body (rq_method (b_req b)) = true -> b_len b = 0) bs -> "
+     "Forall (fun w => w <> Panic) (answers " + _ANSWER_ARGS + " H2 true st now dt bs) -> "
+     "conn_hist " + _ANSWER_ARGS + " wants H1 true secure1 st now dt bs = map Some (answers " + _ANSWER_ARGS + " H1 secure1 st now dt bs) /\\ "
+     "conn_hist " + _ANSWER_ARGS + " wants H2 true true st now dt bs = map Some (answers " + _ANSWER_ARGS + " H2 true st now dt bs) /\\ "
+     "map onorm (answers " + _ANSWER_ARGS + " H1 secure1 st now dt bs) = map onorm (answers " + _ANSWER_ARGS + " H2 true st now dt bs)"),
+    ("pair_history_answered",
+     "forall (checked : bool) (ops : list pkg_op) (alt : option bytes) (e416 : resp), "
+     "Forall (fun o => hop (pkg_op_name o) = false) ops -> forall (secure1 : bool) (exs : list exch), "
+     "Forall (fun e => (pr_no_request_body (ex_method e) = true -> ex_blen e = 0) /\\ N.of_nat (length (rs_body (ex_l4 e))) <= u64_max) exs -> "
+     "forallb is_resp (pair_hist checked ops alt e416 H1 true secure1 exs) = true /\\ "
+     "forallb is_resp (pair_hist checked ops alt e416 H2 true true exs) = true /\\ "
+     "map (option_map onorm) (pair_hist checked ops alt e416 H1 true secure1 exs) = "
+     "map (option_map onorm) (pair_hist checked ops alt e416 H2 true true exs)"),
+    ("unread_request_body_v0_refuted",
+     "exists checked ops alt e416 exs, Forall (fun e => pr_no_request_body (ex_method e) = true -> ex_blen e = 0) exs /\\ "
+     "forallb is_resp (pair_hist checked ops alt e416 H1 false true exs) = false /\\ "
+     "forallb is_resp (pair_hist checked ops alt e416 H2 false true exs) = true /\\ "
+     "forallb is_resp (pair_hist checked ops alt e416 H1 true true exs) = true"),
+    ("undeclared_request_body_refuted",
+     "exists checked ops alt e416 exs, forallb is_resp (pair_hist checked ops alt e416 H1 true true exs) = false /\\ "
+     "forallb is_resp (pair_hist checked ops alt e416 H2 true true exs) = true"),
 ]
 
 RULE = ("Real kvarn::handle_connection on loopback TCP pairs, TLS by a rustls ServerConfig from HostCollection::make_config (ALPN from "
@@ -81,10 +113,19 @@ RULE = ("Real kvarn::handle_connection on loopback TCP pairs, TLS by a rustls Se
         "ServerCachePreference Full / None, QueryMatters page echoing path?query, method echo, a page whose handler sets its own "
         "content-length, pages whose handlers leave connection-specific headers (keep-alive, connection, upgrade, te, "
         "proxy-connection), empty body, 404/500 handler pages) + files (text, binary, index.html) + missing paths + unsafe paths "
-        "(/./x) + a POST echo handler that reads the request body; Package menus (or_insert / insert / remove / append, 0-3 "
-        "extensions in priority order). Requests: GET/HEAD/POST/OPTIONS/PUT x Accept-Encoding {none, gzip, br, identity, gzip;q=0, "
+        "(/./x) + echo handlers that read the request body completely (/echo, read_to_bytes(1 MiB)) or only its first 3 / 100 bytes "
+        "(/echo3, /echo100); Package menus (or_insert / insert / remove / append, 0-3 "
+        "extensions in priority order). Requests: GET/HEAD/POST/OPTIONS/PUT/DELETE/PATCH x Accept-Encoding {none, gzip, br, identity, gzip;q=0, "
         "*;q=0 identity;q=0} x Range around the length of the ENCODED representation (a>b, a=len, open forms) x If-Modified-Since "
-        "(future / past / garbage; cold and warm cache) x Origin x query strings x bodies. Oracles: (a) parity itself, independent of "
+        "(future / past / garbage; cold and warm cache) x Origin x query strings x REQUEST BODIES of 1 B - 150 kB (around the limits of "
+        "the partial readers and around the HTTP/2 initial flow-control window 65535, so that WINDOW_UPDATEs are needed) sent to "
+        "whatever answers: a handler that reads all, part or nothing of it, files (405), missing paths, cache hits, refused Ranges "
+        "(416) and unsafe paths (400), a body that looks like a request - written with the head, some ms later, or (unread ones) only "
+        "after the answer has been read, so that the server must take it from the connection - each followed by the rest of the "
+        "history on the SAME connection and a sentinel request that checks the framing; the h2 client keeps the default 65535-byte "
+        "windows, so echoed 70 kB / 150 kB answers need its WINDOW_UPDATEs. proto.answered: histories made of such requests; the "
+        "implementation's (every request answered on HTTP/1.1?, on HTTP/2?) against the model's connection loop and the "
+        "specification (yes, yes). Oracles: (a) parity itself, independent of "
         "the model: status, all headers except {connection, keep-alive, proxy-connection, transfer-encoding, upgrade, te, "
         "content-length, alt-svc} as sorted "
         "multisets (last-modified value masked) and body bytes of the two protocols are equal; (b) both equal the Coq specification "
@@ -96,8 +137,8 @@ RULE = ("Real kvarn::handle_connection on loopback TCP pairs, TLS by a rustls Se
         "(listener, accept loop, TLS + ALPN, connection tasks, graceful shutdown), same model and oracles. "
         "(2) proto.burst: 2-32 requests sent AT ONCE as streams of one HTTP/2 connection to one fresh host: H_slow handlers sleeping a "
         "seeded 0-250 ms (x-delay header) so that handlers finish in a seeded order unrelated to the stream order, several streams per "
-        "page, cacheable and uncacheable pages, cache on/off, HEAD, ranges, Accept-Encoding, files, 404s and POST echo with a distinct "
-        "body per stream; proto.burst1: the same burst over as many concurrent HTTP/1.1 TLS connections. Oracle: every stream's "
+        "page, cacheable and uncacheable pages, cache on/off, HEAD, ranges, Accept-Encoding, files, 404s, POST echo with a distinct "
+        "body per stream (up to 70 kB) and bodies that are read in part or not at all (also by the slow handlers); proto.burst1: the same burst over as many concurrent HTTP/1.1 TLS connections. Oracle: every stream's "
         "answer equals send H2 (H1) of the layer-4 response of ITS request alone on a fresh host (proto.burst_spec), equals the "
         "two-block task model run in the schedule derived from the delays (correspondence), and equals the answer the real server "
         "gives the same request alone over a fresh connection to a fresh host (proto.alone / proto.alone1, same model). "
@@ -116,23 +157,41 @@ ASSUMPTIONS = [
     "(the harness gives compression_options_oneshot = compression_options_cached); which bytes a compressor emits is external: "
     "the layer-4 response is observed, not predicted",
     "requests both protocols can express: lower-case header names, no host/connection/keep-alive/transfer-encoding/upgrade/te "
-    "request headers, origin-form target, a request body announced by content-length on both protocols; no streaming "
-    "(WebSocket / ResponsePipeFuture) responses, no HTTP/2 server push, HTTP/3 not exercised (UDP/QUIC); a request body is only "
-    "sent to a handler that reads it (what an unread HTTP/1 body does to the connection is C08's subject)",
+    "request headers, origin-form target, a request body announced by content-length on both protocols and sent completely; no "
+    "streaming (WebSocket / ResponsePipeFuture) responses, no HTTP/2 server push, HTTP/3 not exercised (UDP/QUIC)",
+    "request bodies only with methods whose content-length kvarn's HTTP/1 reader honours (utils::get_body_length_request returns 0 "
+    "for GET/HEAD/OPTIONS/CONNECT/TRACE whatever content-length says - as in C08, a GET that carries a body is outside: the "
+    "hypothesis body_declared of history_parity / pair_history_answered; undeclared_request_body_refuted shows in the model that "
+    "such a GET's late body bytes are read as the next request line on HTTP/1.1 and not on HTTP/2, and the witness - GET /p with "
+    "content-length: 5 and 'hello' written after the answer, then GET /p - is replayed on the real code on every run: known class "
+    "h1-undeclared-request-body, the only input of that kind the generators send); history_parity additionally assumes that no "
+    "answer makes a task panic, which send_never_panics proves for every sanitize_data that sanitize_request can produce and "
+    "bodies below 2^64 bytes",
+    "the HTTP/1 client writes the declared body with the head, a few ms after it, or - for targets whose handlers never read a "
+    "body - only after it has read the answer (then Http1Body::drain has to take all of it from the connection; this is the only "
+    "segmentation that decides a verdict, and it does not depend on timing); bodies <= 150 kB, answers to unread ones < 1 kB: no "
+    "write-write deadlock. In the repaired code the segmentation decides nothing for declared bodies (history_parity quantifies "
+    "over it)",
 ]
 TRUSTED = [
-    "modelled (Model/Protocols.v): src/lib.rs handle_connection (alt-svc append, per-request task for HTTP/2), SendKind::send (range "
+    "modelled (Model/Protocols.v): src/lib.rs handle_connection (alt-svc append, per-request task for HTTP/2, the HTTP/1 request loop "
+    "with the fate of a request body: Http1Body::new's early bytes, read_to_bytes(l) taking min(declared, l), Http1Body::drain of "
+    "fix dfe4d54 - and the loop before that fix as the variant drain = false), SendKind::send (range "
     "application incl. the 416 replacement, ensure_length, ensure_version, resolve_package, body/HEAD rule), src/application.rs "
-    "ResponsePipe::{ensure_length, ensure_version, send_response} HTTP/1 and HTTP/2 arms (connection: keep-alive rule); "
+    "ResponsePipe::{ensure_length, ensure_version, send_response} HTTP/1 and HTTP/2 arms (connection: keep-alive rule, "
+    "remove_connection_specific_headers); utils::get_body_length_request (which methods have a declared body); "
     "h2 0.4 proto/streams/send.rs check_headers (the only h2 logic transcribed)",
-    "NOT modelled, exercised only: rustls (handshake, records, ALPN selection), h2 (HPACK, flow control, frame scheduling, stream "
-    "state machine, the client-side content-length check), tokio task scheduling, moka; src/encryption.rs; the request readers "
-    "(kvarn_async::read::request is C07's, h2 RecvStream -> Body::read_to_bytes is exercised by the POST echo pages only)",
+    "NOT modelled, exercised only: rustls (handshake, records, ALPN selection), h2 (HPACK, flow control incl. the WINDOW_UPDATEs "
+    "Body::read_to_bytes releases and the RST_STREAM(NO_ERROR) after an answer whose request body was not read, frame scheduling, "
+    "stream state machine, the client-side content-length check), tokio task scheduling, moka; src/encryption.rs; the request "
+    "readers (kvarn_async::read::request is C07's; which BYTES read_to_bytes returns on either protocol is observed through the "
+    "echo pages, not modelled: the model has the number of bytes taken only)",
     "layer 4 (handle_cache and below) is C03's model in the theorems and an OBSERVATION of the real handle_cache on an identical "
     "fresh host in the correspondence (proto.l4); the twin hosts are deterministic functions of the configuration",
     "harness/src/c20.rs: raw HTTP/1.1 client (strict status line / header / content-length framing, sentinel request), h2 client "
-    "driver, rcgen certificate, Package / H_slow / echo extensions; header multisets are sorted before comparison, the value of "
-    "last-modified is masked",
+    "driver, rcgen certificate, Package / H_slow / echo / echon extensions; header multisets are sorted before comparison, the value "
+    "of last-modified is masked; the echon handler cuts what read_to_bytes(l) returns to l bytes (the in-memory Body::Bytes of the "
+    "layer-4 probe ignores the limit)",
 ]
 LEVEL_TEXT = ("partial. Machine-checked Coq theorems over an executable model of the protocol-dependent send path above the shared "
               "layer 4 of C03: protocol_parity / send_parity (for every host configuration, cache state, request, layer-4 response, "
@@ -142,15 +201,32 @@ LEVEL_TEXT = ("partial. Machine-checked Coq theorems over an executable model of
               "never rejects the head the repaired HTTP/2 arm produces), head_parity (HEAD = GET minus body on both "
               "protocols), stream_independence (for every set of concurrent streams and EVERY schedule of the tasks' lookup and "
               "completion blocks over the shared response cache, every stream receives byte for byte the HTTP/2 answer of its own "
-              "request alone, under C03's handler contract) and streams_answered_exactly_once. The model is tied to /repo on every run "
+              "request alone, under C03's handler contract), streams_answered_exactly_once, and - request bodies - history_parity "
+              "(for every host configuration and state and EVERY history of requests on one connection, each with a declared request "
+              "body of any length that its handler reads completely, in part or not at all, segmented arbitrarily: the repaired "
+              "HTTP/1 connection, like the HTTP/2 one, answers every request, by the application in the state its predecessors left, "
+              "and the two answer sequences are equal up to the same filter; hypothesis: no answer panics, discharged by "
+              "send_never_panics), pair_history_answered (the executable history model of the correspondence equals its "
+              "specification on every input of the domain) and the two witnesses unread_request_body_v0_refuted (the loop before "
+              "fix dfe4d54 answers the PUT-with-refused-Range witness's second request on HTTP/2 only) and "
+              "undeclared_request_body_refuted (the domain hypothesis cannot be dropped: a GET carrying body bytes). "
+              "The model is tied to /repo on every run "
               "by real TLS loopback connections through kvarn::handle_connection with an HTTP/1.1 and an HTTP/2 client (full wire "
               "answers vs. the extracted model, parity and specification oracles, multiplexed bursts with seeded handler delays vs. "
-              "each request alone). NOT proved, only exercised by that run: everything inside the h2 and rustls crates - HPACK, flow "
-              "control, stream scheduling and state machine, TLS and ALPN - and the tokio scheduler; the concurrency theorem is about "
-              "sequentially consistent interleavings of two atomic blocks per task.")
-LEVEL_NOTE = ("Trusted: Coq kernel; extraction (sample re-checked in-kernel); the hand transcription of SendKind::send / ResponsePipe "
-              "into Model/Protocols.v as validated by the differential run; h2 and rustls as black boxes; layer 4 observed on a twin "
-              "host. No axioms.")
+              "each request alone, histories with unread / partly read / large request bodies on both protocols). NOT proved, only "
+              "exercised by that run: everything inside the h2 and rustls crates - HPACK, flow "
+              "control (window updates for large request bodies, the reset after an unread one), stream scheduling and state machine, "
+              "TLS and ALPN - and the tokio scheduler; the concurrency theorem is about "
+              "sequentially consistent interleavings of two atomic blocks per task; which bytes a partial read returns is observed, "
+              "the model only has how many are taken. The former known class h1-unread-request-body was repaired by kvarn commit "
+              "dfe4d54 and is now part of the claim. One known class, outside the property's quantifier (the C08 generator sends no "
+              "such request): h1-undeclared-request-body - kvarn's HTTP/1 reader ignores the content-length of GET / HEAD / OPTIONS "
+              "(by design: its unit test expects it), so body bytes of a GET that arrive after its head break the HTTP/1.1 "
+              "connection and not the HTTP/2 one; the theorems carry the hypothesis, the witness is replayed on every run.")
+LEVEL_NOTE = ("Trusted: Coq kernel; extraction (sample re-checked in-kernel); the hand transcription of SendKind::send / ResponsePipe / "
+              "handle_connection's request loop into Model/Protocols.v as validated by the differential run; h2 and rustls as black "
+              "boxes; layer 4 observed on a twin host; request bodies only where kvarn's HTTP/1 reader honours content-length "
+              "(not GET/HEAD/OPTIONS). No axioms.")
 TECHNIQUE = ("Coq proof (equality up to an explicit header filter; inductive invariant over all schedules, reusing C03's simulation) + "
              "differential correspondence over real TLS connections with both protocols")
 
@@ -180,6 +256,11 @@ PKG_MENUS = [
 ]
 
 
+# handlers that read only the first n bytes of the request body (read_to_bytes(n)); /echo reads all of it (up to 1 MiB)
+ECHON = {b"/echo3": 3, b"/echo100": 100}
+READS = dict(list(ECHON.items()) + [(b"/echo", 1 << 20)])
+
+
 def host_cfg(cache, pkg, with_files=True, slow=(), ctlen=True):
     hs = [H(b"/p", TEXT, headers=[(b"content-type", b"text/plain"), (b"x-h", b"p")], spref=2, compress=True),
           H(b"/n", TEXT[:150], headers=[(b"content-type", b"text/plain")], spref=0, compress=True),
@@ -199,7 +280,8 @@ def host_cfg(cache, pkg, with_files=True, slow=(), ctlen=True):
     hs.append(H(b"/te", b"t" * 10, headers=[(b"te", b"trailers"), (b"x-h", b"te")], spref=2))
     kvs = [xl(xb("cache"), xbool(cache)), xl(xb("handlers"), xlist(hs)),
            xl(xb("pkg"), xlist([xl(xz(p), xn(k), xb(n), xb(v)) for p, k, n, v in pkg])),
-           xl(xb("echo"), xlist([xb(b"/echo")]))]
+           xl(xb("echo"), xlist([xb(b"/echo")])),
+           xl(xb("echon"), xlist([xl(xb(p), xn(n)) for p, n in sorted(ECHON.items())]))]
     if with_files:
         kvs.append(xl(xb("files"), xlist([xl(xb("public/f.txt"), xb(TEXT)), xl(xb("public/b.bin"), xb(BIN)),
                                           xl(xb("public/index.html"), xb(INDEX)), xl(xb("public/e.txt"), xb(b""))])))
@@ -262,7 +344,10 @@ def exchanges(reqs, pr):
         else:
             v = pr[1][k][1]
             l4, sd = xl(*v[:4]), v[4][1]
-        exs.append(xl(xb(m), xopt(None if rg is None else xb(rg)), xbool(sd != 1), l4))
+        # [want]: the handler that answers calls read_to_bytes(want) — the body-reading handlers answer 200, and are not
+        # run when sanitize_request refuses the request (416 / 400: layer 4 answers the error page)
+        want = READS.get(t.split(b"?")[0]) if l4[1][1] == ("N", 200) and sd == 0 else None
+        exs.append(xl(xb(m), xopt(None if rg is None else xb(rg)), xbool(sd != 1), l4, xn(len(b)), xopt(None if want is None else xn(want))))
     e416 = EMPTY_RESP if pr is None else xl(*pr[0][1][:4])
     return e416, xlist(exs)
 
@@ -282,9 +367,35 @@ def range_values(rng):
                        b"items=0-1", b"bytes=0-%d" % (n - 1), b"bytes=3-100000"])
 
 
+# methods whose content-length kvarn's HTTP/1 reader honours (utils::get_body_length_request)
+BODY_METHODS = (b"POST", b"PUT", b"DELETE", b"PATCH")
+BODY_SIZES = [1, 2, 5, 64, 99, 100, 101, 700, 5000, 5000, 20000, 65535, 65536, 70000, 150000]
+
+
+LATE = b"x-c20-late-body"     # pseudo header for the harness's HTTP/1.1 client, never sent (see harness/src/c20.rs)
+
+
+def late(rng, target, p_after=0.5, p_ms=0.25):
+    """how the HTTP/1.1 client writes the request body: with the head (nothing), some ms after the head, or - only for targets
+    whose handlers never read a body - after the response has been read (the server has then certainly seen the head alone:
+    Http1Body::drain has to take the whole body from the connection)"""
+    if target.split(b"?")[0] not in READS and rng.random() < p_after:
+        return [(LATE, b"after")]
+    if rng.random() < p_ms:
+        return [(LATE, b"%d" % rng.choice([1, 5, 20]))]
+    return []
+
+
+def rand_body(rng, n):
+    if n > 2000:
+        seed = bytes(rng.randrange(32, 127) for _ in range(97))
+        return (seed * (n // 97 + 1))[:n]
+    return bytes(rng.randrange(32, 127) for _ in range(n))
+
+
 def rand_request(rng, focus=None):
     t = rng.choice(focus) if focus and rng.random() < 0.7 else rng.choice(PATHS)
-    m = rng.choice([b"GET", b"GET", b"GET", b"GET", b"HEAD", b"HEAD", b"POST", b"OPTIONS", b"PUT"])
+    m = rng.choice([b"GET", b"GET", b"GET", b"GET", b"HEAD", b"HEAD", b"POST", b"OPTIONS", b"PUT", b"POST", b"PUT", b"DELETE", b"PATCH"])
     hs = []
     if rng.random() < 0.55:
         ae = rng.choice(AES)
@@ -299,11 +410,15 @@ def rand_request(rng, focus=None):
     if rng.random() < 0.1:
         hs.append((b"x-custom", b"v" * rng.randrange(1, 40)))
     body = b""
-    if m in (b"POST", b"PUT") and rng.random() < 0.8:
-        t = b"/echo"      # a body is only sent to the handler that reads it (an unread HTTP/1 body is C08's subject)
-        hs = [h for h in hs if h[0] not in (b"range", b"if-modified-since")]   # ... and only when that handler is run
-        body = bytes(rng.randrange(32, 127) for _ in range(rng.choice([1, 5, 64, 700, 5000])))
+    if m in BODY_METHODS and rng.random() < 0.8:
+        # a request body, for whatever answers: a handler that reads all of it (/echo), part of it (/echo3, /echo100), or
+        # nothing at all (pages, files, 404 / 405 / 416 / 400 answers, cache hits) - the rest of the history follows on
+        # the same connection.  Sizes around the HTTP/2 initial flow-control window (65535) need WINDOW_UPDATEs.
+        if rng.random() < 0.5:
+            t = rng.choice([b"/echo", b"/echo", b"/echo3", b"/echo100"])
+        body = rand_body(rng, rng.choice(BODY_SIZES))
         hs.append((b"content-length", b"%d" % len(body)))
+        hs += late(rng, t)
     return R(m, t, hs, body)
 
 
@@ -320,6 +435,7 @@ def history(rng):
     return reqs
 
 
+SMUGGLE = b"GET /s HTTP/1.1\r\nhost: x\r\n\r\n"     # an unread body that looks like a request must not be answered
 DIRECTED_HISTORIES = [
     # the defect repaired by the fix commit: a handler-supplied content-length after compression / range, over HTTP/2
     [R(b"GET", b"/cl", [(b"accept-encoding", b"gzip")]), R(b"GET", b"/cl"), R(b"GET", b"/cl", [(b"range", b"bytes=10-19")]),
@@ -343,6 +459,31 @@ DIRECTED_HISTORIES = [
     # the second repaired defect: connection-specific headers on a handler's response, over HTTP/2
     [R(b"GET", b"/ka"), R(b"HEAD", b"/ka"), R(b"GET", b"/up"), R(b"GET", b"/up", [(b"accept-encoding", b"gzip")]), R(b"GET", b"/te"),
      R(b"GET", b"/up", [(b"range", b"bytes=3-8")]), R(b"GET", b"/p")],
+    # the defect repaired by dfe4d54 (the former known class h1-unread-request-body): a request body that nobody reads -
+    # the Range is refused (416), the handler is not run - followed by further requests on the same connection
+    [R(b"PUT", b"/echo", [(b"range", b"bytes=10-4"), (b"content-length", b"700")], b"u" * 700), R(b"GET", b"/p"),
+     R(b"POST", b"/echo", [(b"content-length", b"4")], b"next"), R(b"HEAD", b"/p")],
+    # unread bodies of every answer class: 405 / 404 / 200 page / cache hit / 400 unsafe path / 416, then a body that IS read
+    [R(b"POST", b"/f.txt", [(b"content-length", b"10")], b"0123456789"), R(b"GET", b"/f.txt"),
+     R(b"POST", b"/missing", [(b"content-length", b"64")], b"m" * 64), R(b"PUT", b"/p", [(b"content-length", b"5000")], b"p" * 5000),
+     R(b"GET", b"/p"), R(b"POST", b"/p", [(b"content-length", b"%d" % len(SMUGGLE))], SMUGGLE),
+     R(b"DELETE", b"/./x", [(b"content-length", b"9")], b"traversal"), R(b"PATCH", b"/n", [(b"range", b"bytes=900-"), (b"content-length", b"3")], b"abc"),
+     R(b"POST", b"/echo", [(b"content-length", b"6")], b"read-6"), R(b"GET", b"/missing")],
+    # the same kinds, the body written only after the answer has been read / some ms after the head
+    [R(b"POST", b"/f.txt", [(b"content-length", b"10"), (LATE, b"after")], b"0123456789"), R(b"GET", b"/f.txt"),
+     R(b"PUT", b"/p", [(b"content-length", b"70000"), (LATE, b"after")], b"q" * 70000), R(b"GET", b"/p"),
+     R(b"POST", b"/missing", [(b"content-length", b"%d" % len(SMUGGLE)), (LATE, b"after")], SMUGGLE), R(b"HEAD", b"/p"),
+     R(b"POST", b"/echo", [(b"content-length", b"6"), (LATE, b"20")], b"late-6"), R(b"PUT", b"/echo3", [(b"content-length", b"700"), (LATE, b"20")], b"e" * 700),
+     R(b"DELETE", b"/n", [(b"range", b"bytes=10-4"), (b"content-length", b"700"), (LATE, b"after")], b"u" * 700), R(b"GET", b"/n")],
+    # partly read bodies (read_to_bytes(3) / (100)), lengths around the limit
+    [R(b"POST", b"/echo3", [(b"content-length", b"2")], b"ab"), R(b"POST", b"/echo3", [(b"content-length", b"3")], b"abc"),
+     R(b"POST", b"/echo3", [(b"content-length", b"4")], b"abcd"), R(b"GET", b"/q?after=partial"),
+     R(b"PUT", b"/echo100", [(b"content-length", b"5000")], bytes(48 + i % 10 for i in range(5000))), R(b"HEAD", b"/echo3"),
+     R(b"POST", b"/echo100", [(b"content-length", b"100")], b"c" * 100), R(b"POST", b"/echo", [(b"content-length", b"1")], b"!")],
+    # bodies larger than the HTTP/2 initial window (65535): read completely (WINDOW_UPDATEs needed), partly, not at all
+    [R(b"POST", b"/echo", [(b"content-length", b"70000")], b"W" * 70000), R(b"POST", b"/echo3", [(b"content-length", b"70000")], b"X" * 70000),
+     R(b"PUT", b"/f.txt", [(b"content-length", b"70000")], b"Y" * 70000), R(b"POST", b"/missing", [(b"content-length", b"66000")], b"Z" * 66000),
+     R(b"POST", b"/echo", [(b"content-length", b"150000")], bytes(97 + i % 23 for i in range(150000))), R(b"GET", b"/p")],
     # empty bodies
     [R(b"GET", b"/empty"), R(b"HEAD", b"/empty"), R(b"GET", b"/e.txt"), R(b"GET", b"/empty", [(b"range", b"bytes=0-0")]), R(b"GET", b"/short", [(b"accept-encoding", b"gzip")])],
 ]
@@ -366,17 +507,42 @@ def gen_pairs(rng, n_random, kind="pair"):
     return [pair_case(job[0], pkg, h, pr, s1, k) for (c, pkg, h, s1, k), job, pr in zip(plans, jobs, prs)]
 
 
-def gen_known(rng):
-    """the known class, replayed on the real server: a request body that nobody reads (the handler is not run: sanitize
-    refuses the Range) desynchronises HTTP/1.1"""
-    plans = [([R(b"PUT", b"/echo", [(b"range", b"bytes=10-4"), (b"content-length", b"700")], b"u" * 700), R(b"GET", b"/p")],
-              "known-unread-body")]
-    jobs = [(host_cfg(True, []), h, 0) for h, _ in plans]
+UNREAD_HISTORIES = [
+    # the witness of the former known finding
+    [R(b"PUT", b"/echo", [(b"range", b"bytes=10-4"), (b"content-length", b"700")], b"u" * 700), R(b"GET", b"/p")],
+    [R(b"POST", b"/f.txt", [(b"content-length", b"10")], b"0123456789"), R(b"GET", b"/f.txt")],
+    [R(b"POST", b"/echo3", [(b"content-length", b"12")], b"GET / HTTP/1"), R(b"GET", b"/p"), R(b"POST", b"/missing", [(b"content-length", b"3000")], b"x" * 3000),
+     R(b"HEAD", b"/p")],
+    [R(b"POST", b"/p", [(b"content-length", b"70000")], b"L" * 70000), R(b"POST", b"/echo", [(b"content-length", b"2")], b"ok")],
+    [R(b"PUT", b"/f.txt", [(b"range", b"bytes=10-4"), (b"content-length", b"700"), (LATE, b"after")], b"u" * 700), R(b"GET", b"/p"),
+     R(b"POST", b"/p", [(b"content-length", b"5"), (LATE, b"after")], b"hello"), R(b"GET", b"/p")],
+]
+# the known class h1-undeclared-request-body: the content-length of a GET is not looked at on HTTP/1.1
+KNOWN_HISTORIES = [
+    [R(b"GET", b"/p", [(b"content-length", b"5"), (LATE, b"after")], b"hello"), R(b"GET", b"/p")],
+]
+
+
+def gen_answered(rng, n_random):
+    """proto.answered: is EVERY request of a history answered, on the HTTP/1.1 and on the HTTP/2 connection (and the framing
+    intact afterwards: sentinel)?  Histories made of requests whose body is not read, or only in part"""
+    plans = [(h, "answered-directed") for h in UNREAD_HISTORIES] + [(h, "known-undeclared-body") for h in KNOWN_HISTORIES]
+    for _ in range(n_random):
+        h = []
+        for _ in range(rng.randrange(2, 6)):
+            m = rng.choice(BODY_METHODS)
+            t = rng.choice([b"/p", b"/f.txt", b"/missing", b"/echo3", b"/echo100", b"/n", b"/./x", b"/echo", b"/q?a=1", b"/nf"])
+            hs = [(b"range", rng.choice([b"bytes=10-4", b"bytes=0-1", b"bytes=99999-"]))] if rng.random() < 0.3 else []
+            body = rand_body(rng, rng.choice(BODY_SIZES))
+            h.append(R(m, t, hs + [(b"content-length", b"%d" % len(body))] + late(rng, t, 0.6, 0.3), body))
+            if rng.random() < 0.5:
+                h.append(R(rng.choice([b"GET", b"HEAD"]), rng.choice([b"/p", b"/f.txt", b"/missing"])))
+        plans.append((h, "answered"))
+    jobs = [(host_cfg(i % 2 == 0, []), h, 0) for i, (h, _) in enumerate(plans)]
     prs = probe(jobs)
-    cases = [pair_case(job[0], [], h, pr, True, k) for (h, k), job, pr in zip(plans, jobs, prs)]
+    cases = [pair_case(job[0], [], h, pr, i % 3 != 2, k) for i, ((h, k), job, pr) in enumerate(zip(plans, jobs, prs))]
     for c in cases:
-        if c.meta["kind"] == "known-unread-body":
-            c.comp, c.spec = "proto.answered", "proto.answered_spec"
+        c.comp, c.spec = "proto.answered", "proto.answered_spec"
     return cases
 
 
@@ -439,10 +605,19 @@ def burst_plan(rng, n):
                 hs.append((b"accept-encoding", rng.choice([b"gzip", b"br"])))
             if rng.random() < 0.3:
                 hs.append((b"range", rng.choice([b"bytes=0-9", b"bytes=20-29"])))
-        else:
+        elif u < 0.9:
             t, m = b"/echo", b"POST"
-            body = b"stream-%d-" % s + bytes(rng.randrange(97, 123) for _ in range(rng.choice([3, 40, 2000])))
+            body = b"stream-%d-" % s + rand_body(rng, rng.choice([3, 40, 2000, 2000, 70000]))
             hs.append((b"content-length", b"%d" % len(body)))
+        else:
+            # a body that is read in part or not at all, among the other streams
+            t = rng.choice([b"/echo3", b"/echo100", b"/p", b"/f.txt", b"/missing", rng.choice(slow)[0]])
+            m = rng.choice(BODY_METHODS)
+            body = b"unread-%d-" % s + rand_body(rng, rng.choice([1, 90, 5000, 70000]))
+            hs.append((b"content-length", b"%d" % len(body)))
+            hs += late(rng, t)
+            if t.startswith(b"/slow"):
+                hs.append((b"x-delay", b"%d" % rng.choice([0, 40, 120, 200])))
         reqs.append(R(m, t, hs, body))
     return cache, slow, reqs
 
@@ -460,7 +635,7 @@ def burst_cases(cfg, pkg, cache, slow, reqs, pr, kind, with_h1):
         elif path == b"/q":
             cacheable, cls = cache, t
         else:
-            cacheable, cls = cache and path not in (b"/n", b"/echo"), path
+            cacheable, cls = cache and path not in (b"/n", b"/echo") and path not in ECHON, path
         cacheable = cacheable and m in (b"GET", b"HEAD")
         strs.append(xl(xn(s + 1), xb(cls + b"|" + d.get(b"accept-encoding", b"")), xbool(cacheable)))
         delays.append(int(d.get(b"x-delay", b"0")))
@@ -493,9 +668,9 @@ def gen_bursts(rng, sizes, kind="burst"):
 
 def generate(rng, tier):
     if tier == "thorough":
-        cases = gen_pairs(rng, 1600) + gen_servers(rng, 40) + gen_mini(rng, 100) + gen_known(rng) + gen_bursts(rng, [2, 3, 4, 6, 8, 12, 16, 24, 32] * 16 + [32] * 6)
+        cases = gen_pairs(rng, 1600) + gen_servers(rng, 40) + gen_mini(rng, 100) + gen_answered(rng, 150) + gen_bursts(rng, [2, 3, 4, 6, 8, 12, 16, 24, 32] * 16 + [32] * 6)
     else:
-        cases = gen_pairs(rng, 50) + gen_servers(rng, 6) + gen_mini(rng, 16) + gen_known(rng) + gen_bursts(rng, [2, 3, 5, 9, 16, 24, 32])
+        cases = gen_pairs(rng, 50) + gen_servers(rng, 6) + gen_mini(rng, 16) + gen_answered(rng, 6) + gen_bursts(rng, [2, 3, 5, 9, 16, 24, 32])
     return cases
 
 
@@ -624,20 +799,15 @@ def extra_oracle(c, i):
     return None
 
 
-def unread_body(c):
-    """some request of the history carries a body that no handler reads"""
-    reqs, exs = c.x[1][1][1][1][1], c.x[1][5][1]
-    for r, e in zip(reqs, exs):
-        target, body = r[1][1][1], r[1][3][1]
-        l4_status = e[1][3][1][1][1]
-        if body and (target != b"/echo" or l4_status != 200):
-            return True
-    return False
+def undeclared_body(c):
+    """some request of the history carries body bytes with a method whose content-length kvarn's HTTP/1 reader ignores"""
+    return any(r[1][3][1] and r[1][0][1] not in BODY_METHODS for r in c.x[1][1][1][1][1])
 
 
 def classify(c, i):
-    if c.comp == "proto.answered" and i == "(L (N 0) (N 1))" and unread_body(c):
-        return "h1-unread-request-body"
+    # (the class h1-unread-request-body was repaired by dfe4d54: fixed: line in known-findings.txt)
+    if c.comp == "proto.answered" and i == "(L (N 0) (N 1))" and undeclared_body(c):
+        return "h1-undeclared-request-body"
     return None
 
 
